@@ -10,6 +10,7 @@ import (
 	"unicode/utf8"
 
 	"github.com/gotd/td/telegram/message/entity"
+	"github.com/gotd/td/telegram/message/styling"
 	"github.com/gotd/td/tg"
 
 	"verif/harness/hc"
@@ -494,6 +495,72 @@ func run(c *hc.Ctx) error {
 		} else {
 			impls = append(impls, "0")
 		}
+	}
+	// ---- the same through package styling (styling.Perform over Plain / Bold / … options)
+	for i := 0; i < c.N(3000, 100000); i++ {
+		var ops []op
+		var opts []styling.StyledTextOption
+		for k := hc.Pick(r, 1, 2, 3, 4, 6); k > 0; k-- {
+			piece := genPiece(r)
+			if r.Chance(25) {
+				ops = append(ops, op{k: 'P', text: piece})
+				opts = append(opts, styling.Plain(piece))
+				continue
+			}
+			f := fmtK{kind: r.Intn(9)}
+			if f.kind == 5 {
+				f.lang = r.Bool()
+			}
+			ops = append(ops, op{k: 'F', text: piece, fs: []fmtK{f}})
+			switch f.kind {
+			case 0:
+				opts = append(opts, styling.Bold(piece))
+			case 1:
+				opts = append(opts, styling.Italic(piece))
+			case 2:
+				opts = append(opts, styling.Underline(piece))
+			case 3:
+				opts = append(opts, styling.Strike(piece))
+			case 4:
+				opts = append(opts, styling.Code(piece))
+			case 5:
+				lang := ""
+				if f.lang {
+					lang = "go"
+				}
+				opts = append(opts, styling.Pre(piece, lang))
+			case 6:
+				opts = append(opts, styling.TextURL(piece, "https://example.org"))
+			case 7:
+				opts = append(opts, styling.Spoiler(piece))
+			default:
+				opts = append(opts, styling.Blockquote(piece, false))
+			}
+		}
+		input := "run " + opsLine(ops)
+		var full []rune
+		var spans []span
+		for _, o := range ops {
+			if o.k == 'F' && o.text != "" {
+				spans = append(spans, span{len(full), len(full) + len([]rune(o.text)), o.fs[0]})
+			}
+			full = append(full, []rune(o.text)...)
+		}
+		b := &entity.Builder{}
+		if err := styling.Perform(b, opts...); err != nil {
+			c.Fail("styling-error", input, err.Error())
+			continue
+		}
+		msg, es, p := completeSafe(b)
+		c.Eval(input, len(spans) > 0)
+		c.Count("via-styling")
+		if p != nil {
+			c.Fail("complete-panic", input, fmt.Sprint(p))
+			continue
+		}
+		monitor(c, input, full, spans, false, msg, es)
+		lines = append(lines, input)
+		impls = append(impls, cps(msg)+" "+canon(showEnts(es)))
 	}
 	// ---- ComputeLength and the trim on single strings
 	for i := 0; i < c.N(3000, 100000); i++ {
